@@ -13,7 +13,7 @@ for d in sorted(glob.glob(os.path.join(ROOT,'seeded','C*'))):
     rows.append('| %s | %s | %s | %s | %s |'%(k,cl(m.get('summary'),230),cl(m.get('needs_to_manifest'),200),s,cl(vr.get('note'),260)))
 hdr='| seed | change | needs to manifest | verdict | note |\n|---|---|---|---|---|\n'
 total=sum(cnt.values())
-summ='%d seeded changes (four full rounds over all 44 claimed properties plus a fifth round `-r5` over 14 of them; every later round was written to differ in kind and site from the earlier ones): '%total+', '.join('%d %s'%(v,k) for k,v in sorted(cnt.items()))+'.'
+summ='%d seeded changes (four full rounds over all 44 claimed properties plus a fifth round `-r5` over %d of them; every later round was written to differ in kind and site from the earlier ones): '%(total,len(glob.glob(os.path.join(ROOT,'seeded','C*-r5'))))+', '.join('%d %s'%(v,k) for k,v in sorted(cnt.items()))+'.'
 open(os.path.join(ROOT,'seeded','INDEX.md'),'w').write('# Seeded breaking changes\n\n'+summ+'\n\nEach directory holds patch.diff, the author\'s demonstration (fails with the change, passes without), demo.sh and meta.json (incl. verif_result).\n\n'+hdr+'\n'.join(rows)+'\n')
 p=os.path.join(ROOT,'DESIGN.md'); s=open(p).read()
 sec='''## 11. Seeded-change campaign (which checks catch which changes)
